@@ -30,6 +30,8 @@ func pollScenarios() []*scen {
 			Threads: map[string][]string{"p1": {"refresh", "refresh"}}, Events: []string{"srv-put:a", "srv-put:b"}},
 		{Name: "D Refresh whose caller is cancelled || second Refresh || server forward then back", Declared: []string{"a"}, CtxFor: map[string]string{"p1": "cancel"},
 			Threads: map[string][]string{"p1": {"refresh"}, "p2": {"refresh"}}, Events: []string{"srv-put:a", "srv-back:a", "cancel:p1"}},
+		{Name: "S10 two declared names, a reader each, two polls with failing requests", Thorough: true, Declared: []string{"a", "b"}, Outcomes: []string{"ok", "fail"},
+			Threads: map[string][]string{"ra": {"secret:a", "read:a", "read:a"}, "rb": {"secret:b", "read:b"}, "p1": {"refresh"}, "p2": {"refresh"}}, Events: []string{"srv-put:a", "srv-put:b"}},
 		{Name: "C Refresh with failing requests, then convergence", Declared: []string{"a", "b"}, Outcomes: []string{"ok", "fail"},
 			Threads: map[string][]string{"p1": {"refresh"}, "reader": {"secret:a", "read:a", "read:a"}}, Events: []string{"srv-put:a"}},
 	}
@@ -46,6 +48,8 @@ func lookupScenarios() []*scen {
 			Threads: map[string][]string{"poller": {"refresh"}, "late": {"secret:plum", "read:plum", "read:plum"}, "late2": {"secret:pear", "read:pear"}}},
 		{Name: "S7 NewUpdater(new name) || LookupSecret(same name) || poll with server change", Declared: []string{"d"},
 			Threads: map[string][]string{"w": {"upd:u", "updget:u"}, "l": {"lookup:u", "read:u"}, "p": {"refresh"}}, Events: []string{"srv-put:u"}},
+		{Name: "S8 Close || LookupSecret(new) || Refresh", Thorough: true, Declared: []string{"d"},
+			Threads: map[string][]string{"closer": {"close"}, "l": {"lookup:u", "read:u"}, "p": {"refresh"}, "reader": {"secret:d", "read:d"}}},
 		{Name: "S6 two lookups of the same new name || poll", Declared: []string{"d"},
 			Threads: map[string][]string{"l1": {"lookup:u", "read:u"}, "l2": {"lookup:u", "read:u"}, "p": {"refresh"}}, Events: []string{"srv-put:u"}},
 	}
@@ -55,6 +59,15 @@ func runSched(t *testing.T, env *report.Env, rep *report.Report, props map[strin
 	bound := quickBound
 	if env.Thorough() {
 		bound = thoroughBound
+	}
+	if !env.Thorough() {
+		var quick []*scen
+		for _, sc := range scs {
+			if !sc.Thorough {
+				quick = append(quick, sc)
+			}
+		}
+		scs = quick
 	}
 	list := mk(props, scs...)
 	hx.ExploreScenarios(t, env, rep, section, list, bound, true, nil)
